@@ -1212,7 +1212,7 @@ func (m *Msg) RequestMDNTo(rcpts ...string) error {
 		if err != nil {
 			return fmt.Errorf(errParseMailAddr, addrVal, err)
 		}
-		addresses = append(addresses, address.String())
+		addresses = append(addresses, addressString(address))
 	}
 	m.genHeader[HeaderDispositionNotificationTo] = addresses
 	return nil
@@ -1256,7 +1256,7 @@ func (m *Msg) RequestMDNAddTo(rcpt string) error {
 	if current, ok := m.genHeader[HeaderDispositionNotificationTo]; ok {
 		addresses = current
 	}
-	addresses = append(addresses, address.String())
+	addresses = append(addresses, addressString(address))
 	m.genHeader[HeaderDispositionNotificationTo] = addresses
 	return nil
 }
@@ -1305,7 +1305,7 @@ func (m *Msg) GetSender(useFullAddr bool) (string, error) {
 		}
 	}
 	if useFullAddr {
-		return from[0].String(), nil
+		return addressString(from[0]), nil
 	}
 	return from[0].Address, nil
 }
@@ -1379,7 +1379,7 @@ func (m *Msg) GetAddrHeader(header AddrHeader) []*mail.Address {
 func (m *Msg) GetAddrHeaderString(header AddrHeader) []string {
 	var addresses []string
 	for _, mh := range m.addrHeader[header] {
-		addresses = append(addresses, mh.String())
+		addresses = append(addresses, addressString(mh))
 	}
 	return addresses
 }
@@ -2524,10 +2524,40 @@ func (m *Msg) SendError() error {
 func (m *Msg) addAddr(header AddrHeader, addr string) error {
 	var addresses []string
 	for _, address := range m.addrHeader[header] {
-		addresses = append(addresses, address.String())
+		addresses = append(addresses, addressString(address))
 	}
 	addresses = append(addresses, addr)
 	return m.SetAddrHeader(header, addresses...)
+}
+
+// addressString returns the RFC 5322 form of the given mail address, like mail.Address.String does.
+//
+// For a display name that has to be RFC 2047 encoded, mail.Address.String may use the Q encoding,
+// which leaves a backslash as it is. A backslash is not allowed in an encoded-word that is part of
+// a phrase, and such an address is not parsed back (neither by net/mail nor by strict readers).
+// For these names the B encoding is used instead.
+//
+// Parameters:
+//   - address: The mail address to be formatted.
+//
+// Returns:
+//   - The name-addr (or addr-spec, if no display name is set) representation of the address.
+func addressString(address *mail.Address) string {
+	if !strings.Contains(address.Name, `\`) {
+		return address.String()
+	}
+	needsEncoding := false
+	for _, char := range address.Name {
+		if (char < ' ' && char != '\t') || char > '~' {
+			needsEncoding = true
+			break
+		}
+	}
+	if !needsEncoding {
+		return address.String()
+	}
+	addrSpec := &mail.Address{Address: address.Address}
+	return mime.BEncoding.Encode("utf-8", address.Name) + " " + addrSpec.String()
 }
 
 // formatAddress combines a display name and a mail address into a RFC 5322 name-addr.
